@@ -162,12 +162,9 @@ def run(ctx):
     def is_scrub_send(node):
         ty = node['recv'].get('ty', '') if node.get('k') == 'MethodCall' else (node['args'][0].get('ty', '') if node.get('k') == 'Call' and node.get('args') else '')
         return hirq.strip_refs(ty) == anchors.T_SCRUB_SENDER
-    def own_id(t):
-        if t[0] != 'field' or t[2] != 'last_id':
-            return False
-        while t[0] == 'field':
-            t = t[1]
-        return t == SELF
+    import streamid
+    SID = streamid.StreamSearchId(f)
+    own_id = SID.accepts
     for sname in states:
         if sname in ('StreamState::Done', 'StreamState::Closed', 'StreamState::Fresh'):
             # Closed: the stream has been finished before (and scrubbed then, by this rule); Fresh: no search was issued, no ID is
@@ -179,5 +176,5 @@ def run(ctx):
         for o in outs:
             scrubbed = [args[1] for i, cal, args, node in sem.calls(o, lambda c: c.endswith('UnboundedSender::<T>::send')) if is_scrub_send(node) and len(args) == 2]
             ctx.add('K6.early-finish-scrubs', '%s|%s' % (B.path, sname.split('::')[-1]), loc(B.root), any(own_id(a) for a in scrubbed),
-                    'finish() of a stream that is not Done (state %s) has a path that does not scrub the stream\'s message ID (scrubbed: %s)'
-                    % (sname.split('::')[-1], [absx.fmt(a)[:40] for a in scrubbed]))
+                    'finish() of a stream that is not Done (state %s) has a path that does not scrub the stream\'s message ID (scrubbed: %s)%s'
+                    % (sname.split('::')[-1], [absx.fmt(a)[:40] for a in scrubbed], ('; ' + SID.why_not(scrubbed[0])) if scrubbed else ''))
